@@ -143,6 +143,8 @@ class Model:
 
     def canon(self, name):
         """the name of the file behind `name`: leading components that are links to directories are resolved"""
+        while len(name) > 1 and (name.endswith("/") or name.endswith("/.")):
+            name = name[:-1] if name.endswith("/") else name[:-2]       # `redo sub/` asks for sub
         if not self.dirlinks:
             return name
         for _ in range(8):
